@@ -148,6 +148,62 @@ def run_one(chk, sseed, cls, chunk_level=False):
         w.destroy()
 
 
+def after_crash_one(chk, sseed):
+    """the monitored run starts from what a killed run left: a run (first-ever, or an update) is killed while it assembles
+    dists.apt_mirror_new, between the two renames, or elsewhere; during the whole next run the live tree must be what was live
+    at its start (possibly nothing) or the complete new tree - a half-assembled tree of the dead run must never go live"""
+    rng = random.Random(sseed)
+    w = common.World(rng, 1)
+    clones = []
+    try:
+        repo = w.repos[0]
+        url = repo["url"]
+        from_empty = rng.random() < 0.5
+        if not from_empty:
+            if w.run(chooser=vloop.RandomChooser(rng.randrange(1 << 30))).exit != 0:
+                chk.evaluated(None)
+                return
+            repo = common.evolve(rng, repo)
+        stores = w.stores([repo])
+        if common.has_s3(repo, w.cfgs[url], stores[url]):
+            chk.evaluated(None)
+            return
+        budget = [3]
+
+        def on_fs(idx, op, paths):
+            rel = os.path.relpath(paths[0], w.sb.base)
+            staging = ".apt_mirror_new" in rel or ".apt_mirror_old" in rel or (len(paths) > 1 and ".apt_mirror_" in paths[-1])
+            if budget[0] > 0 and ((staging and rng.random() < 0.12) or rng.random() < 0.01):
+                budget[0] -= 1
+                clones.append((f"{op} {rel}", w.sb.clone(f"crash{len(clones)}")))
+
+        run_e2e.execute(w.sb, [repo], stores, {}, vloop.RandomChooser(rng.randrange(1 << 30)), on_fs_event=on_fs)
+        for label, sb in clones:
+            mdir = runner.mirror_dir(sb, url)
+            mon = LiveMonitor(mdir, w.cfgs[url])
+
+            def on_fs2(idx, op, paths, mon=mon, sb=sb):
+                mon.snapshot(idx, f"{op} {os.path.relpath(paths[0], sb.base)}")
+            cls = rng.choice(["none", "none", "persistent-required"])
+            plan, _ = scenario.gen_plan(rng, cls, repo, w.cfgs[url], stores[url], skip_pool={e[0] for e in run_e2e.tree(sb, url)})
+            res = run_e2e.execute(sb, [repo], stores, {url: plan}, vloop.RandomChooser(rng.randrange(1 << 30)), on_fs_event=on_fs2)
+            mon.snapshot(len(res.trace.events), "end")
+            replay = {"scenario_seed": sseed, "after_crash": True, "killed_before": label, "class": cls, "from_empty": from_empty, "lines": w.lines}
+            for sig, msg in mon.judge(res.exit == 0):
+                chk.violation(sig + ":run-after-crash", replay, f"previous run killed before `{label}`; {msg}")
+            chk.evaluated(("after-crash", label.split(" ")[0], ".apt_mirror_" in label, from_empty, cls, res.exit),
+                          sample={"after_crash": label, "class": cls, "exit": res.exit, "distinct_live_states": len(mon.snaps)})
+            chk.count("prefixes_checked", mon.nsnap)
+            chk.count("runs_monitored_after_a_killed_run")
+            chk.traces += 1
+        if not clones:
+            chk.evaluated(None)
+    finally:
+        for _, sb in clones:
+            sb.destroy()
+        w.destroy()
+
+
 def install_chunk_hook(mon):
     from core.transport import ScriptedDownloader
     net = ScriptedDownloader.NET
@@ -164,6 +220,8 @@ def install_chunk_hook(mon):
 def run(chk, tier, rng):
     n = 50 if tier == "quick" else 1200
     classes = ["none", "none", "transient", "persistent-required", "none"]
+    for i in range(14 if tier == "quick" else 300):
+        after_crash_one(chk, f"C03k-{chk.seed}-{i}")
     for i in range(n):
         run_one(chk, f"C03-{chk.seed}-{i}", classes[i % len(classes)], chunk_level=(tier == "thorough" and i % 3 == 0))
     chk.assumptions += ["atomicity of rename(2) itself", "S1: immutable pool paths (an upgraded package gets a new file name)",
@@ -175,7 +233,10 @@ def replay(rep):
     chk = Check("C03", "quick", 0)
     chk.known = []
     r = rep["replay"]
-    run_one(chk, r["scenario_seed"], r["class"], r.get("chunk_level", False))
+    if r.get("after_crash"):
+        after_crash_one(chk, r["scenario_seed"])
+    else:
+        run_one(chk, r["scenario_seed"], r["class"], r.get("chunk_level", False))
     for sig, path, msg, _ in chk.violations:
         print(f"REPLAY VIOLATION {sig}: {msg}")
     return 1 if chk.violations else 0
